@@ -256,7 +256,6 @@ func (l *ledger) ReleaseZlibWriter(w *zlib.Writer) { l.give(w); l.inner.ReleaseZ
 // stressC13: many concurrent encoded responses and gzip request bodies over providers of capacity
 // 0, 1, 2 and the sync.Pool provider; every response must decode to its own payload; nobody may block.
 func stressC13(d time.Duration, seed uint64) result {
-	deadline := time.Now().Add(d)
 	// (0) the provider API hammered directly: more goroutines than capacity, tight acquire/release loops
 	for _, capn := range []int{0, 1, 2} {
 		p := restful.NewBoundedCachedCompressors(capn, capn)
@@ -284,7 +283,8 @@ func stressC13(d time.Duration, seed uint64) result {
 			return result{OK: false, What: "a goroutine is blocked in BoundedCachedCompressors acquire/release (watchdog, 20 s)", Detail: fmt.Sprintf("capacity=%d, 8 goroutines", capn)}
 		}
 	}
-	for round := 0; time.Now().Before(deadline); round++ {
+	deadline := time.Now().Add(d)
+	for round := 0; round == 0 || time.Now().Before(deadline); round++ {
 		for _, prov := range []string{"bounded0", "bounded1", "bounded2", "pool"} {
 			var inner restful.CompressorProvider
 			switch prov {
